@@ -42,12 +42,17 @@ def run_steps(sim, case, extra_ops=None, extra_v2=None):
         extra_ops = list(extra_v2 if extra_v2 is not None else extra_ops) + [('lagsnap', 2), ('hold', 2), ('stalereply', 1), ('fig8', 1)]
     table = gen.op_table(cfg.get('profile', 'mixed'), extra_ops)
     resolved = []
+    # replay files store the step list with operation names, so that they keep their meaning when tables change
+    sim.case_ref = case
+    sim.canonical_steps = [[s[0] if isinstance(s[0], str) else _op_of(table, cfg, s)] + list(s[1:]) for s in case['steps']]
     if cfg.get('boot', True):
         boot(sim)
     for s in case['steps']:
         if sim.viol:
             break
-        if cfg.get('tbl', 1) >= 2:
+        if isinstance(s[0], str):
+            op = s[0]
+        elif cfg.get('tbl', 1) >= 2:
             # finer resolution than r alone: with more than 100 table slots r*len//100 skips some of them
             fine = (s[0] % 100) * 100 + ((s[1] * 64 + s[3]) % 100 if len(s) > 3 else 0)
             op = table[fine * len(table) // 10000]
@@ -57,6 +62,13 @@ def run_steps(sim, case, extra_ops=None, extra_v2=None):
         if len(resolved) < 60:
             resolved.append([op, r if r is not False else 'no-op'])
     return resolved
+
+
+def _op_of(table, cfg, s):
+    if cfg.get('tbl', 1) >= 2:
+        fine = (s[0] % 100) * 100 + ((s[1] * 64 + s[3]) % 100 if len(s) > 3 else 0)
+        return table[fine * len(table) // 10000]
+    return table[(s[0] % 100) * len(table) // 100]
 
 
 def base_classes(sim):
@@ -102,7 +114,10 @@ def result_for(prop, sim, resolved, nontrivial, classes):
             classes.add('other-property-monitor:%s:%s' % (v[0], v[1]))
     sample = {'cfg': dict((k, v) for k, v in sim.cfg.items() if k in ('n', 'batch', 'batch_bytes', 'compact_chunk', 'compact_min_entries', 'profile', 'queue_size', 'wait_leader', 'fallback', 'n_ro')),
               'steps': resolved[:25], 'summary': {'leaders': len(sim.terms_with_leader), 'committed': len(sim.G), 'apply_events': sim.all_events}}
-    return Result(nontrivial=nontrivial, classes=sorted(classes), violation=violation, sample=sample)
+    res = Result(nontrivial=nontrivial, classes=sorted(classes), violation=violation, sample=sample)
+    if getattr(sim, 'case_ref', None) is not None:
+        res.canonical_case = dict(sim.case_ref, steps=sim.canonical_steps)
+    return res
 
 
 def standard_main(prop, level, modname, rule, assumptions, tier, seed, cases, quick=(8, 250), thorough=(16, 4000), extra=None):
